@@ -6,7 +6,7 @@ namespace Bandit
 
 /-- the record the tester builds from a raw result, given resolved line and column -/
 def mkFinding (raw : Raw) (ctx : Ctx) (line col : Nat) : Finding :=
-  ⟨raw.id, raw.sev, raw.conf, line, ctx.linerange, col⟩
+  ⟨raw.id, raw.sev, raw.conf, line, raw.range.getD ctx.linerange, col⟩
 
 /-- resolved line/col of a raw result in a context (`none` = KeyError in the tester) -/
 def resolveLoc (raw : Raw) (ctx : Ctx) : Option (Nat × Nat) :=
